@@ -35,6 +35,7 @@ import (
 	gerrors "github.com/tochemey/goakt/v4/errors"
 	"github.com/tochemey/goakt/v4/internal/commands"
 	"github.com/tochemey/goakt/v4/internal/types"
+	"github.com/tochemey/goakt/v4/internal/verifhook"
 )
 
 // pendingWork holds one accepted message waiting for a worker with free
@@ -282,6 +283,7 @@ func (x *workPullingProducerController) Receive(ctx *ReceiveContext) {
 	default:
 		ctx.Unhandled()
 	}
+	verifhook.At("reliable.workpulling.received", ctx, 0, 0)
 }
 
 // handlePostStart watches the producer and creates the generation-fenced
@@ -993,6 +995,9 @@ func (x *workPullingProducerController) publishFailure(stage ReliableDeliverySta
 // tell sends a protocol message and classifies a send failure as transient
 // message loss absorbed by the protocol's retry owners.
 func (x *workPullingProducerController) tell(ctx *ReceiveContext, to *PID, message any) {
+	if verifhook.Enabled && verifhook.Fault("reliable.workpulling.tell", [3]any{ctx, to, message}, 0) != 0 {
+		return
+	}
 	if err := ctx.Self().Tell(context.WithoutCancel(ctx.Context()), to, message); err != nil {
 		ctx.Logger().Debugf("work-pulling producer controller for endpoint=%s lost message to %s: %v", x.producer.Name(), to.Name(), err)
 	}
